@@ -130,6 +130,12 @@ pub mod hash_table {
     }
 }
 
+/// Verification hooks (only with `--cfg hashbrown_verif`).
+#[cfg(hashbrown_verif)]
+pub mod verif {
+    pub use crate::raw::verif::*;
+}
+
 pub use crate::map::HashMap;
 pub use crate::set::HashSet;
 pub use crate::table::HashTable;
